@@ -170,3 +170,408 @@ pub proof fn lemma_v3_connack_packet(c: Connack, rest: Seq<u8>)
     assert(s.skip(2) =~= body + rest);
     lemma_connack_roundtrip(c, rest);
 }
+
+// ---- general framing: fixed header with a variable-length remaining length (2.2.3), any body below 256 MiB
+pub proof fn lemma_frame_header(cb: u8, body: Seq<u8>, rest: Seq<u8>)
+    requires body.len() < 268435456
+    ensures
+        p_raw_header(frame(cb, body) + rest) == PR::<(u8, u32), Error>::Ok((cb, body.len() as u32), 1 + vlen(body.len())),
+        (frame(cb, body) + rest).skip(1 + vlen(body.len()) as int) =~= body + rest,
+{
+    let s = frame(cb, body) + rest;
+    lemma_vlen_enc(body.len());
+    assert(s[0] == cb);
+    assert(s.skip(1) =~= enc_varint(body.len()) + (body + rest));
+    lemma_varint_roundtrip(body.len(), body + rest);
+}
+
+// ---- v3 PUBLISH (3.3): the body decoder inverts the body encoder for every valid Publish, under the header the encoder writes
+pub open spec fn qos_of_qp(q: QosPid) -> QoS { match q { QosPid::Level0 => QoS::Level0, QosPid::Level1(_) => QoS::Level1, QosPid::Level2(_) => QoS::Level2 } }
+pub open spec fn qp_pid_ok(q: QosPid) -> bool { match q { QosPid::Level0 => true, QosPid::Level1(p) => p.0 != 0, QosPid::Level2(p) => p.0 != 0 } }
+//@lemma props=C01,C07,C08,C10,C11,C12
+pub proof fn lemma_publish_roundtrip(x: Publish, h: Header, rest: Seq<u8>)
+    requires
+        x.valid(), name_ok(x.topic_name.text()), qp_pid_ok(x.qos_pid),
+        h.remaining_len as nat == x.enc().len(), h.dup == x.dup, h.retain == x.retain, h.qos == qos_of_qp(x.qos_pid),
+    ensures p3_publish(x.enc() + rest, h) == PR::<Publish, Error>::Ok(x, x.enc().len())
+{
+    broadcast use group_ext;
+    let t = x.topic_name.text();
+    let tail = enc_qos_pid(x.qos_pid) + x.payload@ + rest;
+    let s = x.enc() + rest;
+    assert(s =~= enc_str(t) + tail);
+    lemma_str_roundtrip(t, tail);
+    let n1 = 2 + sbytes(t).len();
+    match x.qos_pid {
+        QosPid::Level0 => {
+            assert(s.subrange(n1 as int, (n1 + x.payload@.len()) as int) =~= x.payload@);
+        }
+        QosPid::Level1(p) => {
+            assert(s[n1 as int] == (p.0 / 256) as u8 && s[n1 as int + 1] == (p.0 % 256) as u8);
+            assert(s.subrange((n1 + 2) as int, (n1 + 2 + x.payload@.len()) as int) =~= x.payload@);
+        }
+        QosPid::Level2(p) => {
+            assert(s[n1 as int] == (p.0 / 256) as u8 && s[n1 as int + 1] == (p.0 % 256) as u8);
+            assert(s.subrange((n1 + 2) as int, (n1 + 2 + x.payload@.len()) as int) =~= x.payload@);
+        }
+    }
+}
+
+pub proof fn lemma_pub_ctrl_header(dup: bool, retain: bool, q: QosPid, rl: u32)
+    ensures header3_of(pub_ctrl(dup, retain, q), rl) == Ok::<Header, Error>(Header { typ: PacketType::Publish, dup, qos: qos_of_qp(q), retain, remaining_len: rl })
+{
+    let b0: u8 = match q { QosPid::Level0 => 0b00110000u8, QosPid::Level1(_) => 0b00110010u8, QosPid::Level2(_) => 0b00110100u8 };
+    assert(b0 | 0b00001000 == b0 + 8 && b0 | 0b00000001 == b0 + 1 && (b0 | 0b00001000) | 0b00000001 == b0 + 9) by (bit_vector)
+        requires b0 == 0b00110000u8 || b0 == 0b00110010u8 || b0 == 0b00110100u8;
+}
+
+//@lemma props=C01,C06,C07,C08,C10,C11,C12
+pub proof fn lemma_v3_publish_packet(x: Publish, rest: Seq<u8>)
+    requires x.valid(), name_ok(x.topic_name.text()), qp_pid_ok(x.qos_pid), x.enc().len() < 268435456
+    ensures p3_packet(enc_packet3(Packet::Publish(x)) + rest) == PR::<Packet, Error>::Ok(Packet::Publish(x), enc_packet3(Packet::Publish(x)).len())
+{
+    let cb = pub_ctrl(x.dup, x.retain, x.qos_pid);
+    let rl = x.enc().len() as u32;
+    lemma_frame_header(cb, x.enc(), rest);
+    lemma_vlen_enc(x.enc().len());
+    lemma_pub_ctrl_header(x.dup, x.retain, x.qos_pid, rl);
+    let h = Header { typ: PacketType::Publish, dup: x.dup, qos: qos_of_qp(x.qos_pid), retain: x.retain, remaining_len: rl };
+    lemma_publish_roundtrip(x, h, rest);
+}
+
+// ---- v3 SUBSCRIBE (3.8) / UNSUBSCRIBE (3.10): lists of well-formed filters round-trip
+pub proof fn lemma_filter_of_text(tf: TopicFilter)
+    requires tf.wf()
+    ensures topic_filter_of(tf.text()) == Ok::<TopicFilter, Error>(tf)
+{
+    broadcast use group_ext;
+}
+pub open spec fn sub_items_wf(items: Seq<(TopicFilter, QoS)>) -> bool { forall|i: int| 0 <= i < items.len() ==> (#[trigger] items[i]).0.wf() }
+pub proof fn lemma_enc_sub_items_front(items: Seq<(TopicFilter, QoS)>)
+    requires items.len() > 0
+    ensures enc_sub_items(items) =~= enc_str(items[0].0.text()) + seq![qos_byte(items[0].1)] + enc_sub_items(items.skip(1))
+    decreases items.len()
+{
+    if items.len() == 1 {
+        assert(items.drop_last() =~= Seq::<(TopicFilter, QoS)>::empty());
+        assert(items.skip(1) =~= Seq::<(TopicFilter, QoS)>::empty());
+        reveal_with_fuel(enc_sub_items, 2);
+    } else {
+        lemma_enc_sub_items_front(items.drop_last());
+        assert(items.drop_last().skip(1) =~= items.skip(1).drop_last());
+        assert(items.skip(1).last() == items.last());
+        assert(items.drop_last()[0] == items[0]);
+    }
+}
+pub proof fn lemma_sub_items_step(s: Seq<u8>, rem: nat, acc: Seq<(TopicFilter, QoS)>, used: nat, t: Seq<char>, n1: nat, tf: TopicFilter, q: QoS)
+    requires rem >= n1 + 1, p_str(s) == PR::<Seq<char>, Error>::Ok(t, n1), topic_filter_of(t) == Ok::<TopicFilter, Error>(tf),
+        s.len() > n1, qos_of(s[n1 as int]) == Ok::<QoS, Error>(q)
+    ensures p3_sub_items(s, rem, acc, used) == p3_sub_items(s.skip(n1 as int + 1), (rem - (n1 + 1)) as nat, acc.push((tf, q)), used + n1 + 1)
+{
+    assert(s.skip(n1 as int)[0] == s[n1 as int]);
+}
+pub proof fn lemma_sub_items_roundtrip(items: Seq<(TopicFilter, QoS)>, rest: Seq<u8>, acc: Seq<(TopicFilter, QoS)>, used: nat)
+    requires sub_items_ok(items), sub_items_wf(items)
+    ensures p3_sub_items(enc_sub_items(items) + rest, enc_sub_items(items).len(), acc, used) == PR::<Seq<(TopicFilter, QoS)>, Error>::Ok(acc + items, used + enc_sub_items(items).len())
+    decreases items.len()
+{
+    hide(p3_sub_items);
+    hide(filter_ok);
+    if items.len() == 0 {
+        assert(acc + items =~= acc);
+        assert(p3_sub_items(enc_sub_items(items) + rest, 0, acc, used) == PR::<Seq<(TopicFilter, QoS)>, Error>::Ok(acc, used)) by { reveal(p3_sub_items); }
+    } else {
+        let tf = items[0].0; let q = items[0].1; let t = tf.text();
+        let tl = items.skip(1);
+        lemma_enc_sub_items_front(items);
+        let s = enc_sub_items(items) + rest;
+        let tail = seq![qos_byte(q)] + enc_sub_items(tl) + rest;
+        assert(s =~= enc_str(t) + tail);
+        lemma_str_roundtrip(t, tail);
+        let n1 = 2 + sbytes(t).len();
+        assert(s[n1 as int] == qos_byte(q));
+        assert(qos_of(qos_byte(q)) == Ok::<QoS, Error>(q));
+        lemma_filter_of_text(tf);
+        lemma_sub_items_step(s, enc_sub_items(items).len(), acc, used, t, n1, tf, q);
+        assert(s.skip(n1 as int + 1) =~= enc_sub_items(tl) + rest);
+        assert(sub_items_ok(tl) && sub_items_wf(tl)) by { assert forall|i: int| 0 <= i < tl.len() implies sbytes((#[trigger] tl[i]).0.text()).len() <= 65535 && tl[i].0.wf() by { assert(tl[i] == items[i + 1]); } }
+        lemma_sub_items_roundtrip(tl, rest, acc.push((tf, q)), used + n1 + 1);
+        assert(acc.push((tf, q)) + tl =~= acc + items);
+    }
+}
+//@lemma props=C01,C07,C08,C10,C11,C12
+pub proof fn lemma_subscribe_roundtrip(x: Subscribe, rest: Seq<u8>)
+    requires x.valid(), sub_items_wf(x.topics@), x.pid.0 != 0, x.topics@.len() > 0
+    ensures p3_subscribe(x.enc() + rest, x.enc().len()) == PR::<Subscribe, Error>::Ok(x, x.enc().len())
+{
+    broadcast use group_ext;
+    let s = x.enc() + rest;
+    let v = x.pid.0;
+    assert(s[0] == (v / 256) as u8 && s[1] == (v % 256) as u8);
+    assert(s.skip(2) =~= enc_sub_items(x.topics@) + rest);
+    lemma_enc_sub_items_front(x.topics@);
+    lemma_sub_items_roundtrip(x.topics@, rest, Seq::empty(), 2);
+    assert(Seq::<(TopicFilter, QoS)>::empty() + x.topics@ =~= x.topics@);
+}
+//@lemma props=C01,C06,C07,C08,C10,C11,C12
+pub proof fn lemma_v3_subscribe_packet(x: Subscribe, rest: Seq<u8>)
+    requires x.valid(), sub_items_wf(x.topics@), x.pid.0 != 0, x.topics@.len() > 0, x.enc().len() < 268435456
+    ensures p3_packet(enc_packet3(Packet::Subscribe(x)) + rest) == PR::<Packet, Error>::Ok(Packet::Subscribe(x), enc_packet3(Packet::Subscribe(x)).len())
+{
+    lemma_frame_header(0x82u8, x.enc(), rest);
+    lemma_vlen_enc(x.enc().len());
+    lemma_subscribe_roundtrip(x, rest);
+}
+
+pub open spec fn unsub_items_wf(items: Seq<TopicFilter>) -> bool { forall|i: int| 0 <= i < items.len() ==> (#[trigger] items[i]).wf() }
+pub proof fn lemma_enc_unsub_items_front(items: Seq<TopicFilter>)
+    requires items.len() > 0
+    ensures enc_unsub_items(items) =~= enc_str(items[0].text()) + enc_unsub_items(items.skip(1))
+    decreases items.len()
+{
+    if items.len() == 1 {
+        assert(items.drop_last() =~= Seq::<TopicFilter>::empty());
+        assert(items.skip(1) =~= Seq::<TopicFilter>::empty());
+        reveal_with_fuel(enc_unsub_items, 2);
+    } else {
+        lemma_enc_unsub_items_front(items.drop_last());
+        assert(items.drop_last().skip(1) =~= items.skip(1).drop_last());
+        assert(items.skip(1).last() == items.last());
+        assert(items.drop_last()[0] == items[0]);
+    }
+}
+pub proof fn lemma_unsub_items_roundtrip(items: Seq<TopicFilter>, rest: Seq<u8>, acc: Seq<TopicFilter>, used: nat)
+    requires unsub_items_ok(items), unsub_items_wf(items)
+    ensures p3_unsub_items(enc_unsub_items(items) + rest, enc_unsub_items(items).len(), acc, used) == PR::<Seq<TopicFilter>, Error>::Ok(acc + items, used + enc_unsub_items(items).len())
+    decreases items.len()
+{
+    if items.len() == 0 {
+        assert(acc + items =~= acc);
+    } else {
+        let tf = items[0]; let t = tf.text();
+        let tl = items.skip(1);
+        lemma_enc_unsub_items_front(items);
+        let s = enc_unsub_items(items) + rest;
+        let tail = enc_unsub_items(tl) + rest;
+        assert(s =~= enc_str(t) + tail);
+        lemma_str_roundtrip(t, tail);
+        let n1 = 2 + sbytes(t).len();
+        assert(s.skip(n1 as int) =~= tail);
+        lemma_filter_of_text(tf);
+        assert(unsub_items_ok(tl) && unsub_items_wf(tl)) by { assert forall|i: int| 0 <= i < tl.len() implies sbytes((#[trigger] tl[i]).text()).len() <= 65535 && tl[i].wf() by { assert(tl[i] == items[i + 1]); } }
+        lemma_unsub_items_roundtrip(tl, rest, acc.push(tf), used + n1);
+        assert(acc.push(tf) + tl =~= acc + items);
+    }
+}
+//@lemma props=C01,C07,C08,C10,C11,C12
+pub proof fn lemma_unsubscribe_roundtrip(x: Unsubscribe, rest: Seq<u8>)
+    requires x.valid(), unsub_items_wf(x.topics@), x.pid.0 != 0, x.topics@.len() > 0
+    ensures p3_unsubscribe(x.enc() + rest, x.enc().len()) == PR::<Unsubscribe, Error>::Ok(x, x.enc().len())
+{
+    broadcast use group_ext;
+    let s = x.enc() + rest;
+    let v = x.pid.0;
+    assert(s[0] == (v / 256) as u8 && s[1] == (v % 256) as u8);
+    assert(s.skip(2) =~= enc_unsub_items(x.topics@) + rest);
+    lemma_enc_unsub_items_front(x.topics@);
+    lemma_unsub_items_roundtrip(x.topics@, rest, Seq::empty(), 2);
+    assert(Seq::<TopicFilter>::empty() + x.topics@ =~= x.topics@);
+}
+//@lemma props=C01,C06,C07,C08,C10,C11,C12
+pub proof fn lemma_v3_unsubscribe_packet(x: Unsubscribe, rest: Seq<u8>)
+    requires x.valid(), unsub_items_wf(x.topics@), x.pid.0 != 0, x.topics@.len() > 0, x.enc().len() < 268435456
+    ensures p3_packet(enc_packet3(Packet::Unsubscribe(x)) + rest) == PR::<Packet, Error>::Ok(Packet::Unsubscribe(x), enc_packet3(Packet::Unsubscribe(x)).len())
+{
+    lemma_frame_header(0xA2u8, x.enc(), rest);
+    lemma_vlen_enc(x.enc().len());
+    lemma_unsubscribe_roundtrip(x, rest);
+}
+//@lemma props=C01,C06,C07,C08,C10,C11
+pub proof fn lemma_v3_suback_packet(x: Suback, rest: Seq<u8>)
+    requires x.valid(), x.pid.0 != 0, x.enc().len() < 268435456
+    ensures p3_packet(enc_packet3(Packet::Suback(x)) + rest) == PR::<Packet, Error>::Ok(Packet::Suback(x), enc_packet3(Packet::Suback(x)).len())
+{
+    lemma_frame_header(0x90u8, x.enc(), rest);
+    lemma_vlen_enc(x.enc().len());
+    lemma_suback_roundtrip(x, rest);
+}
+
+// ---- v3 CONNECT (3.1): protocol name/level, connect flags, payload fields in order
+pub proof fn lemma_protocol_roundtrip(p: Protocol, rest: Seq<u8>)
+    ensures p_protocol(p.enc() + rest) == PR::<Protocol, Error>::Ok(p, p.enc().len())
+{
+    let nm = proto_name(p);
+    let tail = seq![proto_level(p)] + rest;
+    let s = p.enc() + rest;
+    assert(s =~= enc_bin(nm) + tail);
+    lemma_bin_roundtrip(nm, tail);
+    assert(s.skip(2 + nm.len() as int) =~= tail);
+    assert(tail[0] == proto_level(p));
+    assert(name_mqisdp().len() == 6 && name_mqtt().len() == 4);
+}
+pub proof fn lemma_flags_bits(cs: bool, un: bool, pw: bool, will: bool, q: u8, wr: bool)
+    by (bit_vector)
+    requires q <= 2
+    ensures ({
+        let f0 = 0u8;
+        let f1 = if cs { f0 | 0b10 } else { f0 };
+        let f2 = if un { f1 | 0b10000000 } else { f1 };
+        let f3 = if pw { f2 | 0b01000000 } else { f2 };
+        let f = if will { let g = (f3 | 0b00000100) | (q << 3); if wr { g | 0b00100000 } else { g } } else { f3 };
+        &&& f & 1 == 0
+        &&& ((f & 0b10) != 0) == cs
+        &&& ((f & 0b10000000) != 0) == un
+        &&& ((f & 0b01000000) != 0) == pw
+        &&& ((f & 0b100) != 0) == will
+        &&& will ==> (f & 0b11000) >> 3 == q && ((f & 0b00100000) != 0) == wr
+        &&& !will ==> f & 0b11000 == 0
+    })
+{}
+pub proof fn lemma_connect_flags3(c: Connect)
+    ensures ({
+        let f = connect_flags3(c);
+        &&& f & 1 == 0
+        &&& ((f & 0b10) != 0) == c.clean_session
+        &&& ((f & 0b10000000) != 0) == (c.username is Some)
+        &&& ((f & 0b01000000) != 0) == (c.password is Some)
+        &&& ((f & 0b100) != 0) == (c.last_will is Some)
+        &&& c.last_will matches Some(w) ==> (f & 0b11000) >> 3 == qos_byte(w.qos) && ((f & 0b00100000) != 0) == w.retain
+        &&& c.last_will is None ==> f & 0b11000 == 0
+    })
+{
+    match c.last_will {
+        Some(w) => lemma_flags_bits(c.clean_session, c.username is Some, c.password is Some, true, qos_byte(w.qos), w.retain),
+        None => lemma_flags_bits(c.clean_session, c.username is Some, c.password is Some, false, 0, false),
+    }
+}
+pub proof fn lemma_will_roundtrip(w: LastWill, flags: u8, rest: Seq<u8>)
+    requires w.valid(), name_ok(w.topic_name.text()), flags & 0b100 != 0, (flags & 0b11000) >> 3 == qos_byte(w.qos), ((flags & 0b00100000) != 0) == w.retain
+    ensures p3_will(w.enc() + rest, flags) == PR::<Option<LastWill>, Error>::Ok(Some(w), w.enc().len())
+{
+    broadcast use group_ext;
+    let t = w.topic_name.text();
+    let tail = enc_bin(w.message@) + rest;
+    let s = w.enc() + rest;
+    assert(s =~= enc_str(t) + tail);
+    lemma_str_roundtrip(t, tail);
+    assert(s.skip(2 + sbytes(t).len() as int) =~= tail);
+    lemma_bin_roundtrip(w.message@, rest);
+    assert(qos_of(qos_byte(w.qos)) == Ok::<QoS, Error>(w.qos));
+}
+pub proof fn lemma_opt_str_roundtrip(o: Option<Arc<String>>, rest: Seq<u8>)
+    requires opt_str_ok(o)
+    ensures p3_opt_str(enc_opt_str(o) + rest, o is Some) == PR::<Option<Arc<String>>, Error>::Ok(o, enc_opt_str(o).len())
+{
+    broadcast use group_ext;
+    match o { Some(v) => { lemma_str_roundtrip(v@, rest); } None => {} }
+}
+pub proof fn lemma_opt_bin_roundtrip(o: Option<Bytes>, rest: Seq<u8>)
+    requires opt_bin_ok(o)
+    ensures p3_opt_bin(enc_opt_bin(o) + rest, o is Some) == PR::<Option<Bytes>, Error>::Ok(o, enc_opt_bin(o).len())
+{
+    broadcast use group_ext;
+    match o { Some(v) => { lemma_bin_roundtrip(v@, rest); } None => {} }
+}
+pub open spec fn connect_wf3(c: Connect) -> bool {
+    c.valid() && c.protocol != Protocol::V500 && (match c.last_will { Some(w) => name_ok(w.topic_name.text()), None => true })
+}
+pub open spec fn enc_will3(c: Connect) -> Seq<u8> { match c.last_will { Some(w) => w.enc(), None => Seq::empty() } }
+pub proof fn lemma_connect_body_parse(s: Seq<u8>, protocol: Protocol, cid: Seq<char>, n1: nat, will: Option<LastWill>, n2: nat, user: Option<Arc<String>>, n3: nat, pass: Option<Bytes>, n4: nat)
+    requires
+        protocol != Protocol::V500, s.len() >= 3, s[0] & 1 == 0,
+        p_str(s.skip(3)) == PR::<Seq<char>, Error>::Ok(cid, n1),
+        p3_will(s.skip(3 + n1 as int), s[0]) == PR::<Option<LastWill>, Error>::Ok(will, n2),
+        p3_opt_str(s.skip(3 + n1 as int + n2 as int), s[0] & 0b10000000 != 0) == PR::<Option<Arc<String>>, Error>::Ok(user, n3),
+        p3_opt_bin(s.skip(3 + n1 as int + n2 as int + n3 as int), s[0] & 0b01000000 != 0) == PR::<Option<Bytes>, Error>::Ok(pass, n4),
+    ensures p3_connect_body(s, protocol) == PR::<Connect, Error>::Ok(Connect {
+            protocol, clean_session: (s[0] & 0b10) != 0, keep_alive: be16(s[1], s[2]),
+            client_id: Arc::new(mk_string(cid)), last_will: will, username: user, password: pass }, 3 + n1 + n2 + n3 + n4)
+{
+    hide(p3_will); hide(p3_opt_str); hide(p3_opt_bin); hide(p_str);
+}
+pub proof fn lemma_skip_concat(a: Seq<u8>, b: Seq<u8>)
+    ensures (a + b).skip(a.len() as int) == b
+{ assert((a + b).skip(a.len() as int) =~= b); }
+pub proof fn lemma_skip_skip(s: Seq<u8>, a: int, b: int)
+    requires 0 <= a, 0 <= b, a + b <= s.len()
+    ensures s.skip(a).skip(b) == s.skip(a + b)
+{ assert(s.skip(a).skip(b) =~= s.skip(a + b)); }
+pub proof fn lemma_nest7(a: Seq<u8>, b: Seq<u8>, c: Seq<u8>, d: Seq<u8>, e: Seq<u8>, f: Seq<u8>, g: Seq<u8>)
+    ensures a + b + c + d + e + f + g == (a + b) + (c + (d + (e + (f + g))))
+{ assert(a + b + c + d + e + f + g =~= (a + b) + (c + (d + (e + (f + g))))); }
+pub proof fn lemma_connect_body_roundtrip(c: Connect, rest: Seq<u8>)
+    requires connect_wf3(c)
+    ensures ({
+        let body = seq![connect_flags3(c)] + enc_u16(c.keep_alive) + enc_str(c.client_id@) + enc_will3(c) + enc_opt_str(c.username) + enc_opt_bin(c.password);
+        p3_connect_body(body + rest, c.protocol) == PR::<Connect, Error>::Ok(c, body.len())
+    })
+{
+    hide(connect_flags3); hide(p3_will); hide(p3_opt_str); hide(p3_opt_bin); hide(name_ok); hide(p_str); hide(p_bin); hide(p3_connect_body);
+    let f = connect_flags3(c);
+    lemma_connect_flags3(c);
+    let pa = seq![f]; let pb = enc_u16(c.keep_alive); let pc = enc_str(c.client_id@); let pd = enc_will3(c); let pe = enc_opt_str(c.username); let pf = enc_opt_bin(c.password);
+    let t4 = pf + rest;
+    let t3 = pe + t4;
+    let t2 = pd + t3;
+    let t1 = pc + t2;
+    let hd = pa + pb;
+    let s = pa + pb + pc + pd + pe + pf + rest;
+    lemma_nest7(pa, pb, pc, pd, pe, pf, rest);
+    assert(s == hd + t1);
+    assert(hd.len() == 3);
+    assert(s[0] == f && s[1] == (c.keep_alive / 256) as u8 && s[2] == (c.keep_alive % 256) as u8) by {
+        assert(hd[0] == f && hd[1] == (c.keep_alive / 256) as u8 && hd[2] == (c.keep_alive % 256) as u8);
+        assert(s[0] == hd[0] && s[1] == hd[1] && s[2] == hd[2]);
+    }
+    lemma_skip_concat(hd, t1);
+    assert(s.skip(3) == t1);
+    lemma_str_roundtrip(c.client_id@, t2);
+    let n1 = 2 + sbytes(c.client_id@).len();
+    let n2 = pd.len();
+    let n3 = pe.len();
+    let n4 = pf.len();
+    assert(pc.len() == n1);
+    lemma_skip_concat(pc, t2);
+    lemma_skip_skip(s, 3, n1 as int);
+    assert(s.skip(3 + n1 as int) == t2);
+    match c.last_will {
+        Some(w) => { lemma_will_roundtrip(w, f, t3); }
+        None => { assert(t2 =~= t3); assert(p3_will(t2, f) == PR::<Option<LastWill>, Error>::Ok(None, 0)) by { reveal(p3_will); } }
+    }
+    assert(p3_will(t2, f) == PR::<Option<LastWill>, Error>::Ok(c.last_will, n2));
+    lemma_skip_concat(pd, t3);
+    lemma_skip_skip(s, 3 + n1 as int, n2 as int);
+    assert(s.skip(3 + n1 as int + n2 as int) == t3);
+    lemma_opt_str_roundtrip(c.username, t4);
+    lemma_skip_concat(pe, t4);
+    lemma_skip_skip(s, 3 + n1 as int + n2 as int, n3 as int);
+    assert(s.skip(3 + n1 as int + n2 as int + n3 as int) == t4);
+    lemma_opt_bin_roundtrip(c.password, rest);
+    lemma_connect_body_parse(s, c.protocol, c.client_id@, n1, c.last_will, n2, c.username, n3, c.password, n4);
+    assert(Arc::new(mk_string(c.client_id@)) == c.client_id) by { broadcast use group_ext; }
+    assert(s.len() == 3 + n1 + n2 + n3 + n4 + rest.len());
+}
+//@lemma props=C01,C07,C08,C10,C11,C12
+pub proof fn lemma_connect_roundtrip(c: Connect, rest: Seq<u8>)
+    requires connect_wf3(c)
+    ensures p3_connect(c.enc() + rest) == PR::<Connect, Error>::Ok(c, c.enc().len())
+{
+    hide(p3_connect_body); hide(connect_flags3); hide(p_protocol);
+    let body = seq![connect_flags3(c)] + enc_u16(c.keep_alive) + enc_str(c.client_id@) + enc_will3(c) + enc_opt_str(c.username) + enc_opt_bin(c.password);
+    let s = c.enc() + rest;
+    assert(s =~= c.protocol.enc() + (body + rest));
+    lemma_protocol_roundtrip(c.protocol, body + rest);
+    assert(s.skip(c.protocol.enc().len() as int) =~= body + rest);
+    lemma_connect_body_roundtrip(c, rest);
+    assert(c.enc().len() == c.protocol.enc().len() + body.len());
+}
+//@lemma props=C01,C06,C07,C08,C10,C11,C12
+pub proof fn lemma_v3_connect_packet(c: Connect, rest: Seq<u8>)
+    requires connect_wf3(c), c.enc().len() < 268435456
+    ensures p3_packet(enc_packet3(Packet::Connect(c)) + rest) == PR::<Packet, Error>::Ok(Packet::Connect(c), enc_packet3(Packet::Connect(c)).len())
+{
+    hide(p3_connect); hide(connect_flags3);
+    lemma_frame_header(0x10u8, c.enc(), rest);
+    lemma_vlen_enc(c.enc().len());
+    lemma_connect_roundtrip(c, rest);
+}
